@@ -398,6 +398,8 @@ class StdStringModel:
                 self.ext[n] = self.size
             elif tail.startswith('append(char const*, unsigned long)'):
                 self.ext[n] = self.append_n
+            elif tail == 'empty() const':
+                self.ext[n] = self.empty
         self.found = set(self.ext.values())
 
     def model(self, st, this):
@@ -424,6 +426,13 @@ class StdStringModel:
         if m is None:
             return [(st, st.fresh_int(64, False, 'strsize'))]
         return [(st, IntVal(64, m[1], None))]
+
+    def empty(self, interp, st, i, args):
+        # empty() is size() == 0
+        m = self.model(st, args[0])
+        if m is None:
+            return [(st, CondVal('unknown'))]
+        return [(st, CondVal('cmp', 'eq', IntVal(64, m[1], None), mk_const(64, 0), None, None))]
 
     def append_n(self, interp, st, i, args):
         n = _u(st, args[2])
